@@ -210,6 +210,16 @@ class _ImmutableDeclaration(Declaration):
             _ImmutableDeclaration.__instance = object.__new__(cls)
         return _ImmutableDeclaration.__instance
 
+    def __init__(self):
+        # ``weakref()`` hands out this class as the "reference" to the
+        # singleton, and dereferencing it calls the class: that must
+        # not initialize the singleton a second time (which would wipe
+        # the resolution order it was given at import time).
+        try:
+            self._implied
+        except AttributeError:
+            super().__init__()
+
     def __reduce__(self):
         return "_empty"
 
